@@ -1,21 +1,39 @@
-import NitroVerif.Lemmas.SkipConcScanMono
+import NitroVerif.Lemmas.SkipConcScanRet
 /-!
-  C15 over WHOLE SCANS, on the executable model M5 (`Model/SkipConc.lean`, unchanged).
+  C15 over WHOLE SCANS, on the executable model M5 (`Model/SkipConc.lean`), explicit `Refresh()` calls included.
 
   Property, verbatim: "An iterator that runs while other goroutines insert and delete never goes backwards (an item
   equal to the previous one can appear only if it was deleted and re-inserted meanwhile), returns only items that
   were present at some moment during the scan, and returns every item that was present for the whole duration of
-  the scan; Seek(x) lands on an item >= x with no stable item in between."
+  the scan; Seek(x) lands on an item >= x with no stable item in between.  Refreshing or pausing the iterator does not
+  change these guarantees."
 
   Setting.  Any number `n` of threads, any run `as` from `Sys.init n` (any interleaving of call entries and segments
   of all threads), any thread `t` and iterator name `it`.  A SCAN of `(t, it)` = an effective `start t (it_first it)`
   or `start t (it_seek it x)` followed by `it_next it` calls of thread `t` (the automatic `Refresh` at the end of a
-  Next included), interleaved arbitrarily with inserts, deletes, lookups and other iterators of every thread.
+  Next included) AND explicit `it_refresh it` calls of thread `t` (`Op.itRefresh`, the public `Refresh()`) at any place
+  between them, any number of them, interleaved arbitrarily with inserts, deletes, lookups and other iterators of
+  every thread.  (Pause/Resume only release / re-acquire the barrier session, which M5 does not model: for the model
+  they are no-ops, the driver answers `ret` without touching the state.)
   The history variables of the scan live in `Ghost` (`Lemmas/SkipConcScanInv.lean`), updated by `ghostAct` next to
   the model in the instrumented run `Sys.runG`; `C15_runG_projection` proves that the instrumented run projects
   onto `Sys.run`, so nothing is assumed about the model.  `Ghost.positions` = the cursor node after each completed
   call of the current scan, `Ghost.stamps` = the number of published nodes in the state of each of those returns,
   `Ghost.startLen` = the number of published nodes when the scan's first call started, `Ghost.lo` = the seek key.
+
+  WHAT AN EXPLICIT REFRESH RECORDS (the choice made in `Ghost.onStep`, `Lemmas/SkipConcScanInv.lean`):
+    * it returns on the node that is already the last position (the node under the cursor is not deleted: `Seek(item)`
+      finds it again): nothing new is delivered, `positions` does NOT grow; only the stamp
+      of that last position is replaced by the number of published nodes at this return (which makes the equal-key
+      clause of `Rel` for the NEXT position stronger: "published after the refresh returned");
+    * it returns on another node (the node under the cursor was deleted meanwhile and `Seek(item)` landed behind it):
+      that node is now the cursor — what the user's next `Get()` returns — so it counts as a returned position and is
+      appended with its stamp, exactly like the result of a Next; `Rel` is proved for it.
+    In both cases the call counts as a return (`Ghost.returns` grows), so `C15_present_partial` speaks about it.
+    The "same node → do not grow" rule is applied to explicit refreshes ONLY (`Ghost.refreshing`, set by the accepted
+    entry of `it_refresh`, cleared by its return): a Seek or a Next (its automatic refresh included) always appends.
+  All four theorems below are statements about every run of the instrumented system, hence about scans with explicit
+  refreshes anywhere; `refreshScanDemo` is a concrete one.
 
   PROVED (all for every run, by invariants; no enumeration):
     `C15_complete`        every node published before the scan started, unmarked at level 0 now, with seek key ≤ key
@@ -58,8 +76,10 @@ theorem InvS_init (n : Nat) : InvS (Sys.init n) := InvS_initWith true n
 theorem C15_runG_projection (t it : Nat) (s : Sys) (g : Ghost) (as : List Action) :
     (Sys.runG t it (s, g) as).1 = s.run as := runG_fst t it (s, g) as
 
-/-- COMPLETENESS of a scan.  In every state of every run in which a scan of `(t, it)` is active and no call on the
-    iterator is in progress (so: in the state a call of the scan returns, and in every later state up to the next
+/-- COMPLETENESS of a scan (`it_next` and explicit `it_refresh` calls in any order after the first call).  In every
+    state of every run in which a scan of `(t, it)` is active and no call on the
+    iterator is in progress (so: in the state a call of the scan — Seek, Next or explicit Refresh — returns, and in
+    every later state up to the next
     call), the cursor is the last position returned, and every node `a` that was published before the scan's first
     call started, is not the head, is unmarked at level 0 in this state, has a key ≥ the seek key (no bound for
     SeekFirst) and a key < the key of the cursor (the cursor may be the tail) is one of the positions returned. -/
@@ -91,8 +111,9 @@ theorem C15_complete (n : Nat) (as : List Action) (t it : Nat) (th : Thread)
   · exact absurd (by rw [hp]; rfl) hcall
   · exact absurd (by rw [pcIter_of_searchOf hf]; exact hcn) hcall
 
-/-- when the scan has reached the end, every node that was published before it started and is still unmarked (key
-    ≥ the seek key) has been returned -/
+/-- when the scan has reached the end (by a Next or by an explicit Refresh whose Seek found nothing behind the deleted
+    cursor node), every node that was published before it started and is still unmarked (key ≥ the seek key) has been
+    returned -/
 theorem C15_complete_at_end (n : Nat) (as : List Action) (t it : Nat) (th : Thread)
     (hact : (Sys.runG t it (Sys.init n, {}) as).2.active = true)
     (hth : (Sys.runG t it (Sys.init n, {}) as).1.threads[t]? = some th)
@@ -120,7 +141,10 @@ theorem C15_complete_at_end (n : Nat) (as : List Action) (t it : Nat) (th : Thre
 /-- MONOTONICITY of a scan.  In every state of every run in which a scan of `(t, it)` is active: along the positions
     returned so far, each position `c` (returned in a state with `L` published nodes) and the next position `c'`
     satisfy `Rel`: `key c < key c'`, or `key c = key c'` and `c` is marked (deleted) and `c'` was published after `c`
-    was returned (`L ≤ c'`: node ids are publication order). -/
+    was returned (`L ≤ c'`: node ids are publication order).  Explicit refreshes: one that lands on the last position
+    again adds no position (so no pair "same node twice" arises, `Rel` is NOT weakened) and renews that position's
+    stamp `L` to the number of published nodes at the refresh's return; one that lands on another node `c'` appends
+    it, and `Rel` holds between the previous position and `c'`. -/
 theorem C15_monotone (n : Nat) (as : List Action) (t it : Nat)
     (hact : (Sys.runG t it (Sys.init n, {}) as).2.active = true) :
     MonoF (Sys.runG t it (Sys.init n, {}) as).1.sh.heap (Sys.runG t it (Sys.init n, {}) as).2.positions
@@ -148,7 +172,9 @@ theorem MonoF_get {h : Heap} : ∀ (ps ss : List Nat) (i c c' L : Nat), MonoF h 
 /-- PRESENCE, what the code guarantees.  Whenever an action makes a call of a scan of `(t, it)` return a position
     (the ghost counter `returns` grows), the position `c` recorded is a published node that is on the level-0 chain
     from the head in the state of the return; if the returning segment was the end of a findPath (Seek, the
-    re-search of Next, the Seek of the automatic Refresh) `c` is the tail or unmarked at level 0 in that state. -/
+    re-search of Next, the Seek of the automatic Refresh, the Seek of an EXPLICIT Refresh — always) `c` is the tail or
+    unmarked at level 0 in that state.  An explicit refresh counts as a return also when it lands on the last position
+    again (`positions` is then unchanged and `c` is that last position): the refresh has re-validated it. -/
 theorem C15_present_partial (n : Nat) (as : List Action) (a : Action) (t it : Nat)
     (hr : (Sys.runG t it (Sys.init n, {}) (as ++ [a])).2.returns =
           (Sys.runG t it (Sys.init n, {}) as).2.returns + 1) :
@@ -160,6 +186,27 @@ theorem C15_present_partial (n : Nat) (as : List Action) (a : Action) (t it : Na
   have hI := (runG_scan (t := t) (it := it) (InvS_init n) (ScanSys_init t it _) as).1
   rw [runG_append] at hr ⊢
   exact actG_return_reach hI a hr
+
+/-- HOW AN EXPLICIT REFRESH IS RECORDED (the ghost rule, as a theorem about the instrumented run).  If after `as` an
+    explicit refresh of `(t, it)` is in progress and the segment `step t'` makes it return (`returns` grows), then
+    `t' = t`, the refresh is over, and with `c` the node under the cursor in the resulting state: either `c` is the
+    last position already and the list of positions is UNCHANGED (the refresh delivered nothing new), or `c` is another
+    node and is APPENDED (the node under the cursor was deleted; `c` is what the next `Get()` returns) — and then
+    `C15_monotone` relates it to the previous position, `C15_complete` covers everything before it. -/
+theorem C15_refresh_return (n : Nat) (as : List Action) (t' t it : Nat)
+    (hrf : (Sys.runG t it (Sys.init n, {}) as).2.refreshing = true)
+    (hr : (Sys.runG t it (Sys.init n, {}) (as ++ [.step t'])).2.returns =
+          (Sys.runG t it (Sys.init n, {}) as).2.returns + 1) :
+    t' = t ∧ (Sys.runG t it (Sys.init n, {}) (as ++ [.step t'])).2.refreshing = false ∧
+    ∃ th' c, (Sys.runG t it (Sys.init n, {}) (as ++ [.step t'])).1.threads[t]? = some th' ∧ (th'.iter it).curr = c ∧
+      (((Sys.runG t it (Sys.init n, {}) (as ++ [.step t'])).2.positions =
+          (Sys.runG t it (Sys.init n, {}) as).2.positions ∧
+        (Sys.runG t it (Sys.init n, {}) as).2.positions.getLast? = some c) ∨
+       ((Sys.runG t it (Sys.init n, {}) (as ++ [.step t'])).2.positions =
+          (Sys.runG t it (Sys.init n, {}) as).2.positions ++ [c] ∧
+        (Sys.runG t it (Sys.init n, {}) as).2.positions.getLast? ≠ some c)) := by
+  rw [runG_append] at hr ⊢
+  exact actG_refresh_return t' hrf hr
 
 /-! ### non-vacuity and witnesses: concrete runs (kernel-checked TESTS, not proofs of the property) -/
 
@@ -193,6 +240,66 @@ example : word? (Sys.runG 0 1 (Sys.init 2, {}) scanDemo).1.sh.heap 2 0 = some (4
     word? (Sys.runG 0 1 (Sys.init 2, {}) scanDemo).1.sh.heap 4 0 = some (1, false) ∧
     word? (Sys.runG 0 1 (Sys.init 2, {}) scanDemo).1.sh.heap 3 0 = some (4, true) ∧
     keyOf (Sys.runG 0 1 (Sys.init 2, {}) scanDemo).1.sh.heap 6 = .fin 1 := by decide
+
+/-- A SCAN WITH EXPLICIT REFRESHES.  Thread 1 inserts 2 4 6 (nodes 2 3 4); thread 0 scans with iterator 1:
+    SeekFirst (→ 2), Next (→ 4, node 3); explicit Refresh #1 with the cursor node intact (→ 4, the same node: nothing
+    recorded but the return); thread 1 DELETES 4 — the node under the cursor — completely (marked and unlinked) and
+    inserts 7 (node 5); explicit Refresh #2: `Seek(4)` lands on node 4 (key 6), a NEW position, stamp 6; thread 1
+    inserts 8 (node 6); explicit Refresh #3 lands on node 4 again: no new position, its stamp is renewed 6 → 7;
+    Next (→ 7), Next (→ 8), Next (→ end).  (Segments of an idle thread are no-ops, so the step counts are upper bounds.) -/
+def refreshScanDemo : List Action :=
+  call 1 (.ins 2 0) 3 ++ call 1 (.ins 4 0) 4 ++ call 1 (.ins 6 0) 5 ++
+  [.start 0 (.itFirst 1)] ++ call 0 (.itNext 1) 1 ++ call 0 (.itRefresh 1) 5 ++ call 1 (.del 4) 12 ++
+  call 1 (.ins 7 0) 6 ++ call 0 (.itRefresh 1) 5 ++ call 1 (.ins 8 0) 7 ++ call 0 (.itRefresh 1) 6 ++
+  call 0 (.itNext 1) 1 ++ call 0 (.itNext 1) 1 ++ call 0 (.itNext 1) 1
+
+set_option maxRecDepth 8000 in
+/-- the refresh in the middle of `refreshScanDemo` whose cursor node was deleted by the other thread: before it
+    (48 actions) the thread is inside the Seek of the explicit refresh, the cursor node 3 (key 4) is marked, the
+    positions are [2, 3]; its last segment appends node 4 (key 6) and counts as a return (these are the hypotheses of
+    `C15_refresh_return` with `as = refreshScanDemo.take 48`, `t' = 0`, and its second alternative) -/
+example : (Sys.runG 0 1 (Sys.init 2, {}) (refreshScanDemo.take 48)).2.positions = [2, 3] ∧
+    (Sys.runG 0 1 (Sys.init 2, {}) (refreshScanDemo.take 48)).2.refreshing = true ∧
+    word? (Sys.runG 0 1 (Sys.init 2, {}) (refreshScanDemo.take 48)).1.sh.heap 3 0 = some (4, true) ∧
+    (Sys.runG 0 1 (Sys.init 2, {}) (refreshScanDemo.take 49)).2.positions = [2, 3, 4] ∧
+    (Sys.runG 0 1 (Sys.init 2, {}) (refreshScanDemo.take 49)).2.stamps = [5, 5, 6] ∧
+    (Sys.runG 0 1 (Sys.init 2, {}) (refreshScanDemo.take 49)).2.refreshing = false ∧
+    (Sys.runG 0 1 (Sys.init 2, {}) (refreshScanDemo.take 49)).2.returns =
+      (Sys.runG 0 1 (Sys.init 2, {}) (refreshScanDemo.take 48)).2.returns + 1 ∧
+    keyOf (Sys.runG 0 1 (Sys.init 2, {}) (refreshScanDemo.take 49)).1.sh.heap 4 = .fin 6 := by decide
+
+/-- action 49 of `refreshScanDemo` is a segment of thread 0 (the shape `as ++ [.step t']` of `C15_refresh_return`) -/
+example : refreshScanDemo.take 49 = refreshScanDemo.take 48 ++ [.step 0] := rfl
+
+set_option maxRecDepth 8000 in
+/-- the two refreshes of `refreshScanDemo` that land on the same node: #1 (actions 19–23) leaves positions and stamps
+    as they are (no node was published meanwhile) and counts as a return; #3 (actions 59–63) leaves the positions
+    and renews the last stamp 6 → 7 -/
+example : (Sys.runG 0 1 (Sys.init 2, {}) (refreshScanDemo.take 18)).2.positions = [2, 3] ∧
+    (Sys.runG 0 1 (Sys.init 2, {}) (refreshScanDemo.take 23)).2.positions = [2, 3] ∧
+    (Sys.runG 0 1 (Sys.init 2, {}) (refreshScanDemo.take 23)).2.stamps = [5, 5] ∧
+    (Sys.runG 0 1 (Sys.init 2, {}) (refreshScanDemo.take 23)).2.returns =
+      (Sys.runG 0 1 (Sys.init 2, {}) (refreshScanDemo.take 18)).2.returns + 1 ∧
+    (Sys.runG 0 1 (Sys.init 2, {}) (refreshScanDemo.take 58)).2.stamps = [5, 5, 6] ∧
+    (Sys.runG 0 1 (Sys.init 2, {}) (refreshScanDemo.take 63)).2.positions = [2, 3, 4] ∧
+    (Sys.runG 0 1 (Sys.init 2, {}) (refreshScanDemo.take 63)).2.stamps = [5, 5, 7] := by decide
+
+set_option maxRecDepth 8000 in
+/-- the hypotheses of `C15_complete` / `C15_complete_at_end` / `C15_monotone` are met by `refreshScanDemo`: at the end
+    the scan is active, thread 0 is idle with the cursor on the tail; positions = nodes of 2, 4, 6, 7, 8 and the tail;
+    nodes 2 and 4 (keys 2, 6) were published before the scan (startLen 5) and are unmarked, node 3 (key 4) is marked -/
+example : (Sys.runG 0 1 (Sys.init 2, {}) refreshScanDemo).2.active = true ∧
+    (Sys.runG 0 1 (Sys.init 2, {}) refreshScanDemo).2.positions = [2, 3, 4, 5, 6, 1] ∧
+    (Sys.runG 0 1 (Sys.init 2, {}) refreshScanDemo).2.stamps = [5, 5, 7, 7, 7, 7] ∧
+    (Sys.runG 0 1 (Sys.init 2, {}) refreshScanDemo).2.startLen = 5 ∧
+    (Sys.runG 0 1 (Sys.init 2, {}) refreshScanDemo).2.returns = 8 ∧
+    word? (Sys.runG 0 1 (Sys.init 2, {}) refreshScanDemo).1.sh.heap 2 0 = some (4, false) ∧
+    word? (Sys.runG 0 1 (Sys.init 2, {}) refreshScanDemo).1.sh.heap 3 0 = some (4, true) ∧
+    word? (Sys.runG 0 1 (Sys.init 2, {}) refreshScanDemo).1.sh.heap 4 0 = some (5, false) := by decide
+
+set_option maxRecDepth 8000 in
+example : ∃ th, (Sys.runG 0 1 (Sys.init 2, {}) refreshScanDemo).1.threads[0]? = some th ∧ isIdle th.pc = true ∧
+    (th.iter 1).curr = tailId := ⟨_, rfl, by decide, by decide⟩
 
 /-- WITNESS 1 against `C15_present` ("unmarked at some state during the scan"): 5 inserted; thread 1's Delete(5) has
     marked the node at level 0 and is parked at DEL_SEARCH; then thread 0 starts a scan with SeekFirst -/
